@@ -6,6 +6,7 @@
  *   root | inode <ref> | lsdir <ref> | lspart <ref> <k> | resolve <path> | inum <n>
  *   read <ref> <off> <len> | block <ref> <i> | frag <ref> | stream <ref> <n> | cross <ref>
  *   xattr <idx> | xdesc <idx> <k> | id <i> | mseek <blk> <off> <n>
+ *   rawzip <refA> <refB>            (two cursors on one meta reader, read alternately; the fresh reader set reads them one after the other)
  *   rawls <ref> <k> | rawcont <k>   (sqfs_readdir_state_init + sqfs_meta_reader_readdir on ONE cursor object that lives as long as the
  *                                    reader set: re-initialised after partial listings, continued after other operations)
  * Output: "MISMATCH <line no> <op> long=<status>:<digest> fresh=<status>:<digest>" (exit 3) or "OK <n ops> <n failed ops> <n blocks>".
@@ -247,6 +248,68 @@ static res_t do_raw(rset_t *r, int cont, sqfs_u64 ref, long limit)
 	return mk(0, h);
 }
 
+/* one entry from a cursor into a running digest; returns the readdir status */
+static int raw_step(rset_t *r, sqfs_readdir_state_t *cur, uint64_t *digest)
+{
+	sqfs_dir_node_t *ent = NULL;
+	sqfs_u32 inum = 0;
+	sqfs_u64 iref = 0;
+	int ret = sqfs_meta_reader_readdir(r->dmr, cur, &ent, &inum, &iref);
+
+	if (ret != 0) {
+		*digest = fnv(*digest, &ret, sizeof(ret));
+		return ret;
+	}
+	*digest = fnv(*digest, ent->name, ent->size + 1);
+	*digest = fnv(*digest, &ent->type, sizeof(ent->type));
+	*digest = fnv(*digest, &inum, sizeof(inum));
+	*digest = fnv(*digest, &iref, sizeof(iref));
+	sqfs_free(ent);
+	return 0;
+}
+
+/* two directories through two cursors on the same meta reader ("one can swap between multiple states and read several
+ * directories interchangeably", meta_reader.h): the long-lived reader set alternates between them entry by entry, the
+ * fresh one lists the first completely and then the second; both sequences must come out the same */
+static res_t do_rawzip(rset_t *r, sqfs_u64 refa, sqfs_u64 refb)
+{
+	sqfs_inode_generic_t *ia = NULL, *ib = NULL;
+	sqfs_readdir_state_t ca, cb;
+	uint64_t ha = H0, hb = H0;
+	int ra, rb, ret;
+	long n = 0;
+
+	ret = sqfs_dir_reader_get_inode(r->dr, refa, &ia);
+	if (ret)
+		return mk(ret, 1);
+	ret = sqfs_dir_reader_get_inode(r->dr, refb, &ib);
+	if (ret) {
+		sqfs_free(ia);
+		return mk(ret, 2);
+	}
+	ra = sqfs_readdir_state_init(&ca, &r->super, ia);
+	rb = sqfs_readdir_state_init(&cb, &r->super, ib);
+	sqfs_free(ia);
+	sqfs_free(ib);
+	if (ra || rb)
+		return mk(ra ? ra : rb, 3);
+	if (g_is_fresh) {
+		while (raw_step(r, &ca, &ha) == 0 && ++n < 100000)
+			;
+		n = 0;
+		while (raw_step(r, &cb, &hb) == 0 && ++n < 100000)
+			;
+	} else {
+		while ((ra == 0 || rb == 0) && ++n < 200000) {
+			if (ra == 0)
+				ra = raw_step(r, &ca, &ha);
+			if (rb == 0)
+				rb = raw_step(r, &cb, &hb);
+		}
+	}
+	return mk(0, fnv(ha, &hb, sizeof(hb)));
+}
+
 static res_t do_op(rset_t *r, const char *op, char *args)
 {
 	uint64_t h = H0;
@@ -277,6 +340,11 @@ static res_t do_op(rset_t *r, const char *op, char *args)
 		char *e;
 		sqfs_u64 ref = strtoull(args, &e, 0);
 		return do_raw(r, 0, ref, strtol(e, NULL, 0));
+	}
+	if (!strcmp(op, "rawzip")) {
+		char *e;
+		sqfs_u64 refa = strtoull(args, &e, 0);
+		return do_rawzip(r, refa, strtoull(e, NULL, 0));
 	}
 	if (!strcmp(op, "rawcont"))
 		return do_raw(r, 1, 0, strtol(args, NULL, 0));
